@@ -28,10 +28,17 @@ def pair_case(inp):
     from synkit.Graph.ITS.its_construction import ITSConstruction
     rng = random.Random(inp["seed"])
     G, H, ids = itslib.realise_pair(inp["pair"], rng)
-    its = ITSConstruction.ITSGraph(G, H)
     # the same reaction with renumbered atoms (and a different object history)
     new = rng.sample(range(100, 100 + 3 * len(ids) + 5), len(ids))
     G2, H2, _ = itslib.realise_pair(inp["pair"], rng, ids=new)
+    if inp.get("unbalanced"):
+        # an atom that exists on one side only (the ITS stores a placeholder on the other side): drop atoms without bonds on that side
+        for k, (v, w) in enumerate(zip(ids, new)):
+            side = (G, G2) if k % 2 == 0 else (H, H2)
+            if side[0].degree(v) == 0 and rng.random() < 0.6:
+                side[0].remove_node(v)
+                side[1].remove_node(w)
+    its = ITSConstruction.ITSGraph(G, H)
     its2 = ITSConstruction.ITSGraph(G2, H2)
     return _analyse(its, ids, its2, new)
 
@@ -106,6 +113,9 @@ def run(ctx: core.Ctx) -> None:
     core.run_stage(ctx, S("all-pairs<=3-atoms", pair_case, [{"pair": p, "seed": rng.randrange(10 ** 9)} for p in g2 + g3]))
     rp = [itslib.random_pair(rng, rng.randint(3, 8)) for _ in range(1200 if q else 30000)] + hh_pairs(rng, 300 if q else 6000)
     core.run_stage(ctx, S("random-pairs<=8", pair_case, [{"pair": p, "seed": rng.randrange(10 ** 9)} for p in rp]))
+    # ITS graphs of unbalanced pairs: atoms present on one side only
+    ub = g3 + [itslib.random_pair(rng, rng.randint(3, 7)) for _ in range(600 if q else 15000)]
+    core.run_stage(ctx, S("pairs-with-atoms-on-one-side-only", pair_case, [{"pair": p, "seed": rng.randrange(10 ** 9), "unbalanced": True} for p in ub]))
     cx = []
     for r in chem.corpus():
         for how, s in chem.rewrites(r["rsmi"], rng, 1 if q else 8):
